@@ -185,17 +185,23 @@ Theorem C11_gcm13_too_short_rejected :
 Proof. exact gcm13_decrypt_short. Qed.
 Print Assumptions C11_gcm13_too_short_rejected.
 
-(* all-padding inner plaintext: rejected -- but the value the code leaves in *outlen is
-   (size_t)-1 (DESIGN section 5 #21; reported by the check as a violation of the
-   "never reports a length larger than the ciphertext" clause) *)
+(* all-padding inner plaintext: rejected cleanly, 0 left in *outlen *)
 Theorem C11_gcm13_all_padding_rejected :
   forall (open : list N -> list N -> list N -> list N -> option (list N)) iv seq inp n,
   16 <= length inp ->
   open (nonce13 iv seq) (aad13 (length inp))
        (firstn (length inp - 16) inp) (skipn (length inp - 16) inp) = Some (zeros n) ->
-  tls13_gcm_decrypt open iv seq inp = Dec13Err (Some size_max).
+  tls13_gcm_decrypt open iv seq inp = Dec13Err (Some 0%N).
 Proof. exact gcm13_decrypt_all_padding. Qed.
 Print Assumptions C11_gcm13_all_padding_rejected.
+
+(* for every input: a failing unprotect leaves *outlen untouched or 0 (never a length larger than
+   the ciphertext, which tls13_do_recv would keep in conn->datalen) *)
+Theorem C11_gcm13_error_reports_no_length :
+  forall (open : list N -> list N -> list N -> list N -> option (list N)) iv seq inp v,
+  tls13_gcm_decrypt open iv seq inp = Dec13Err (Some v) -> v = 0%N.
+Proof. exact gcm13_decrypt_err_outlen. Qed.
+Print Assumptions C11_gcm13_error_reports_no_length.
 
 (* the nonce determines the sequence number; an honest record accepted under another sequence
    number means the AEAD opened it under a nonce different from the sealing nonce *)
